@@ -536,7 +536,10 @@ theorem flexPush_spec (it : Ty) (l : LenTy) (hd : Law it.dict) (hfd : FrameLaw i
     (h : Chain it.dict l (max l.size it.dict.align) 0 data items)
     (hend : data.len % max l.align it.dict.align = 0) :
     ∃ o, flexPush it l i data = .ok o ∧ o.bytes.length = data.len ∧
-      (o.res = .ok () → ∃ p img, Chain it.dict l (max l.size it.dict.align) 0 ⟨data.addr, o.bytes⟩ (items ++ [(p, img)])) ∧
+      (o.res = .ok () → ∃ p ob z,
+        emplace it i ⟨data.addr + p + max l.size it.dict.align, data.bytes.drop (p + max l.size it.dict.align)⟩ = .ok ⟨ob, .ok ()⟩ ∧
+        it.dict.sizeV ⟨data.addr + p + max l.size it.dict.align, ob⟩ = .ok z ∧
+        Chain it.dict l (max l.size it.dict.align) 0 ⟨data.addr, o.bytes⟩ (items ++ [(p, ob.take z)])) ∧
       (∀ e, o.res = .error e → Chain it.dict l (max l.size it.dict.align) 0 ⟨data.addr, o.bytes⟩ items) := by
   have hls : l.size ≤ max l.size it.dict.align := Nat.le_max_left _ _
   have hpa := hd.align_pow2
@@ -586,7 +589,8 @@ theorem flexPush_spec (it : Ty) (l : LenTy) (hd : Law it.dict) (hfd : FrameLaw i
           rw [writeAt_drop_after hb2 _ (by rw [encLenTy_length]; omega), List.drop_left' (by simp only [List.length_take]; omega)]
         -- the new item as a one-item chain at the new slot
         have newChain : ∀ b3 : Bytes, b3.length = data.len → b3.drop w.pos = b2.drop w.pos →
-            ∃ img, Chain it.dict l (max l.size it.dict.align) w.pos ⟨data.addr + (w.pos - 0), b3.drop (w.pos - 0)⟩ [(w.pos, img)] := by
+            ∃ z, it.dict.sizeV ⟨data.addr + w.pos + max l.size it.dict.align, o.bytes⟩ = .ok z ∧
+              Chain it.dict l (max l.size it.dict.align) w.pos ⟨data.addr + (w.pos - 0), b3.drop (w.pos - 0)⟩ [(w.pos, o.bytes.take z)] := by
           intro b3 hb3l hb3d
           simp only [Nat.sub_zero]
           rw [hb3d]
@@ -597,15 +601,22 @@ theorem flexPush_spec (it : Ty) (l : LenTy) (hd : Law it.dict) (hfd : FrameLaw i
             simp only [Slice.drop, List.drop_drop, hb2d]; exact hval
           obtain ⟨hia, himin, hiv⟩ := validate_ok_iff.1 hvs
           obtain ⟨z, hz, _⟩ := hfd.size_ok _ hia himin hiv
-          exact ⟨_, Chain.last (z := z) hwa (by simp only [Slice.len, List.length_drop, hb2l]; omega)
+          have himg : ((b2.drop w.pos).drop (max l.size it.dict.align)).take z = o.bytes.take z := by rw [List.drop_drop, hb2d]
+          have hz' : it.dict.sizeV ⟨data.addr + w.pos + max l.size it.dict.align, o.bytes⟩ = .ok z := by
+            have := hz; simp only [Slice.drop, List.drop_drop, hb2d] at this; exact this
+          refine ⟨z, hz', ?_⟩
+          rw [← himg]
+          exact Chain.last (z := z) hwa (by simp only [Slice.len, List.length_drop, hb2l]; omega)
             (readU_of_take l _ l.max (lmax_lt l) (mod_trans hwa (Pow2.max_mod_left hl.align_pow2 hpa)) hread)
-            (lmax_ne_zero l hl) (by simp only [Slice.len, List.length_drop, hb2l]; omega) hvs hz⟩
+            (lmax_ne_zero l hl) (by simp only [Slice.len, List.length_drop, hb2l]; omega) hvs hz
         have hso := hp.sealOk
         cases hs : w.sealing with
         | none =>
           simp only []
-          obtain ⟨img, hc⟩ := newChain b2 hb2l rfl
-          refine ⟨_, rfl, hb2l, fun _ => ⟨w.pos, img, ?_⟩, (by intro e he; cases he)⟩
+          obtain ⟨z, hz, hc⟩ := newChain b2 hb2l rfl
+          have hemq : emplace it i ⟨data.addr + w.pos + max l.size it.dict.align, data.bytes.drop (w.pos + max l.size it.dict.align)⟩ = .ok ⟨o.bytes, .ok ()⟩ := by
+            rw [ho]; cases o; simp only at hres; subst hres; rfl
+          refine ⟨_, rfl, hb2l, fun _ => ⟨w.pos, o.bytes, z, hemq, hz, ?_⟩, (by intro e he; cases he)⟩
           exact hp.ext b2 _ hb2l (by simp only [hs, Nat.sub_zero]; exact hb2t) hc
         | some ql =>
           obtain ⟨q, lo⟩ := ql
@@ -615,8 +626,10 @@ theorem flexPush_spec (it : Ty) (l : LenTy) (hd : Law it.dict) (hfd : FrameLaw i
           rw [hb2l] at hb3l
           simp only [hb3, Res.bind_ok]
           obtain ⟨bq, hbq, _⟩ := writeAt_ok (bs := data.bytes) (x := encLenTy l lo) (off := q) (by rw [encLenTy_length]; omega)
-          obtain ⟨img, hc⟩ := newChain b3 hb3l (writeAt_drop_after hb3 _ (by rw [encLenTy_length]; omega))
-          refine ⟨_, rfl, hb3l, fun _ => ⟨w.pos, img, ?_⟩, (by intro e he; cases he)⟩
+          obtain ⟨z, hz, hc⟩ := newChain b3 hb3l (writeAt_drop_after hb3 _ (by rw [encLenTy_length]; omega))
+          have hemq : emplace it i ⟨data.addr + w.pos + max l.size it.dict.align, data.bytes.drop (w.pos + max l.size it.dict.align)⟩ = .ok ⟨o.bytes, .ok ()⟩ := by
+            rw [ho]; cases o; simp only at hres; subst hres; rfl
+          refine ⟨_, rfl, hb3l, fun _ => ⟨w.pos, o.bytes, z, hemq, hz, ?_⟩, (by intro e he; cases he)⟩
           exact hp.ext b3 _ hb3l (by
             simp only [hs, Nat.sub_zero]
             exact ⟨bq, hbq, writeAt_congr_take hb3 hbq w.pos (by rw [encLenTy_length]; omega) hb2t⟩) hc
